@@ -248,6 +248,12 @@ Theorem core_ssn_leaf_wf : forall (isvar : str -> bool) s t,
 Proof. exact ssn_leaf_wf. Qed.
 Print Assumptions core_ssn_leaf_wf.
 
+(* ... and, since the mutator leaves string literals and comments alone (fix F47), for every well-formed leaf *)
+Theorem core_ssn_any_leaf_wf : forall (isvar : str -> bool) s t,
+  wf (L s) = true -> In t (ssn_names isvar s) -> leaf_std t = true /\ wf (L t) = true.
+Proof. exact ssn_any_leaf_wf. Qed.
+Print Assumptions core_ssn_any_leaf_wf.
+
 (* ================= non-vacuity ================= *)
 Example core_ex_erase :
   rw_erase_child (T [a_; b_; c_]) = Some [T [b_; c_]; T [a_; c_]; T [a_; b_]].
